@@ -363,6 +363,9 @@ class C04Derived(Harness):
         for method in ("fixed_width", "integer", "pretty"):
             for dim in (1, 2):
                 yield f"derived-{method}-{dim}d", dict(method=method, dim=dim)
+        # the option includes_right_edge=True: the last bin is closed, a data maximum on the grid is still inside it
+        for method in ("fixed_width", "integer"):
+            yield f"derived-{method}-2d-rightedge", dict(method=method, dim=2, right=True)
 
     def declare(self, cx, p):
         x = {"v": cx.reals("v", 2)}
@@ -385,6 +388,8 @@ class C04Derived(Harness):
         fac = E.mod("physt._facade")
         data = np.asarray(list(x["v"]), dtype=float)
         kw = {"fixed_width": dict(bin_width=0.5), "integer": {}, "pretty": dict(bin_count=4)}[p["method"]]
+        if p.get("right"):
+            kw["includes_right_edge"] = True
         if p["dim"] == 1:
             h = E.attempt(fac.h1, data, p["method"], **kw)
             if isinstance(h, Raised):
@@ -413,7 +418,7 @@ class C04Derived(Harness):
             if not B:
                 continue
             first, last = cx.t(B[0][0]), cx.t(B[-1][1])
-            closed = p["dim"] == 1   # 1D histograms close their last bin; ND axes of fixed-width binnings do not
+            closed = p["dim"] == 1 or bool(p.get("right"))   # 1D histograms close their last bin; ND axes of fixed-width binnings only with includes_right_edge=True
             yield f"range_covers_data[{key}]", z3.And([z3.And(first <= t, (t <= last) if closed else (t < last)) for t in v])
             yield f"contiguous_equal_width[{key}]", z3.And([cx.t(B[j][1]) == cx.t(B[j + 1][0]) for j in range(len(B) - 1)] + [cx.t(b[1]) - cx.t(b[0]) == cx.t(B[0][1]) - cx.t(B[0][0]) for b in B])
         yield "not_adaptive", obs["adaptive"] is False
